@@ -5,8 +5,32 @@ function of the program is the EXIT handler's body. Response: `<status> <trace>`
 namespace BrushVerif.Drv.C16
 open BrushVerif.Wire BrushVerif.Flow BrushVerif.Drv.FlowWire BrushVerif.Traps
 
+/-- `C16 S <program wire>`: the last two functions are the handler and the body of a subshell that
+registers its own EXIT trap; `main` runs before it and a `$?` probe after it.
+Response: `<brush model> | <reference>` -/
+def ownTrap (fs : List Cmd) (main : Cmd) (spec : Bool) : Str :=
+  match fs.reverse with
+  | c :: h :: _ =>
+    match exec 100000 fs false main {} with
+    | none => "out-of-fuel".toList
+    | some (s, r) =>
+      if r.flow ≠ .normal then showOut (some (s.trace, r.code))
+      else
+        let sub := if spec then subshellOwnTrapSpec 100000 fs false (some h) c s
+                   else subshellOwnTrap 100000 fs false (some h) c s
+        match sub with
+        | none => "out-of-fuel".toList
+        | some (s1, r1) =>
+          if r1.flow ≠ .normal then showOut (some (s1.trace, r1.code))
+          else showOut (some (s1.trace ++ [.q s1.last], 0))
+  | _ => "bad-program".toList
+
 def handle (toks : List Str) : Str :=
   match toks with
+  | ['S'] :: rest =>
+    match pProg rest with
+    | none => "bad-program".toList
+    | some (fs, main) => ownTrap fs main false ++ " | ".toList ++ ownTrap fs main true
   | ht :: xr :: rest =>
     match pProg rest with
     | none => "bad-program".toList
